@@ -4,7 +4,7 @@
    boundary; callbacks may raise or call the machine again), macro steps (= the steps the
    harness can observe without source hooks), decoding of cases and encoding of observations.
 
-   case = [mode, cfg, machine, calls, progs, sched]
+   case = [mode, cfg, machine, calls, progs, sched, fails]
      mode    0: run the schedule        1: enumerate maximal schedules (budget = hd sched)
      cfg     [machine_context lock ids, hierarchical?]   lock 0 = the default PicklableLock (not
              instrumented: its acquire/release are not observable), ids >= 1 = user contexts
@@ -15,13 +15,16 @@
              slot 0 prepare_event 1 before 2 after 3 finalize; action 1 raise | 2 nested call arg=cid
      progs   [[cid ...] ...]  (thread i+1 issues the i-th list)
      sched   [tid ...]        (macro steps)
+     fails   [[cid, context id, kind] ...]   kind 1: __enter__ of that context raises for top-level call cid,
+                                             kind 2: its __exit__ raises (after releasing)
    observation = [1, [log, final, alldone, serial_ok, left_the_envelope]]  *)
 From Coq Require Import List Arith Bool.
 From M Require Import Sx Lock.
 Import ListNotations.
 
 (* ------------------------------------------------------------------ concrete machine *)
-Inductive cres : Type := RVal (v : nat) (* 0 False 1 True 2 None *) | RExn (k : nat) (* 2 ValueError 3 user *).
+Inductive cres : Type := RVal (v : nat) (* 0 False 1 True 2 None *)
+                       | RExn (k : nat) (* 2 ValueError 3 user 5 context refused 6 context exit error *).
 
 Record cspec : Type := mkSpec {
   s_cid : nat; s_kind : nat; s_a : nat; s_b : nat; s_c : nat;
@@ -219,11 +222,21 @@ Definition next_visible (th : cthread) : bool :=
       end
   end.
 
+Definition fail_at (fails : list (nat * (nat * nat))) (kind : nat) (c : call) (x : ctx) : bool :=
+  match x with
+  | CLock l => existsb (fun f => Nat.eqb (fst f) (c_id c) && Nat.eqb (fst (snd f)) l && Nat.eqb (snd (snd f)) kind) fails
+  | CIdent => false
+  end.
+Definition c_refused (c : call) (x : ctx) : cres := RExn 5.
+Definition c_exit (c : call) (x : ctx) (r : cres) : cres := RExn 6.
+
 Section Macro.
   Variable tab : list cspec.
+  Variable fails : list (nat * (nat * nat)).
   Variable cfg : lcfg.
   Definition cstep : nat -> cgstate -> cgstate :=
-    step (c_start tab) (c_resume tab) c_ret c_reg cfg.
+    step (c_start tab) (c_resume tab) c_ret c_reg (fail_at fails 1) (fail_at fails 2) c_refused c_exit cfg.
+  Notation blocked := (blocked (fail_at fails 1)).
 
   Fixpoint macro_go (fuel : nat) (first : bool) (t : nat) (g : cgstate) : cgstate :=
     match fuel with
@@ -322,6 +335,7 @@ Definition e_lev (e : lev (R:=cres) (I:=citem)) : list sx :=
   | EvAcq t (CLock (S l)) => [L [N 0; N t; N (S l)]]
   | EvRel t (CLock (S l)) => [L [N 1; N t; N (S l)]]
   | EvBlocked t (CLock l) => [L [N 3; N t; N l]]
+  | EvRefuse t (CLock l) => [L [N 5; N t; N l]]
   | EvSeg t c its => map (fun it : citem => L [N 2; N t; N (c_id c); N (fst it); N (fst (snd it)); N (snd (snd it))]) its
   | EvRet t c r => [L [N 4; N t; N (c_id c); enc_res r]]
   | _ => []
@@ -351,9 +365,10 @@ Definition e_done (d : list (cres * list citem)) : sx :=
 
 Definition run_lock_case (x : sx) : sx :=
   match x with
-  | L [mode; cfgx; mx; callsx; progsx; schedx] =>
-      match d_nat mode, d_cfg cfgx, d_machine mx, d_list d_spec callsx, d_list d_nats progsx, d_nats schedx with
-      | Some mode', Some cfg, Some ms0, Some tab, Some progs, Some sched =>
+  | L [mode; cfgx; mx; callsx; progsx; schedx; failsx] =>
+      match d_nat mode, d_cfg cfgx, d_machine mx, d_list d_spec callsx, d_list d_nats progsx, d_nats schedx,
+            d_list d_triple failsx with
+      | Some mode', Some cfg, Some ms0, Some tab, Some progs, Some sched, Some fails =>
           let n := length progs in
           let prog_of := fun t =>
             match t with
@@ -365,7 +380,7 @@ Definition run_lock_case (x : sx) : sx :=
           let g0 : cgstate := init prog_of ms0 in
           match mode' with
           | 0 =>
-              let g := macro_run tab cfg sched g0 in
+              let g := macro_run tab fails cfg sched g0 in
               let alldone := forallb (fun t => thread_done (g_th g t)) (seq 1 n) in
               let serial :=
                 if alldone then
@@ -380,9 +395,9 @@ Definition run_lock_case (x : sx) : sx :=
               L [N 1; L [L (flat_map e_lev (g_log g)); e_final (cfg_machine cfg) (g_ms g); e_bool alldone; N serial; e_bool (g_bad g)]]
           | _ =>
               let budget := match sched with b :: _ => b | [] => 100 end in
-              L [N 2; e_list (e_list e_nat) (fst (enum tab cfg 200 n g0 [] budget))]
+              L [N 2; e_list (e_list e_nat) (fst (enum tab fails cfg 200 n g0 [] budget))]
           end
-      | _, _, _, _, _, _ => L [N 0]
+      | _, _, _, _, _, _, _ => L [N 0]
       end
   | _ => L [N 0]
   end.
